@@ -68,32 +68,43 @@ def subject_of(chain):
 
 def eval_test(test, origin, subject, is_none):
     """(value, guard kinds) of an if-chain test for a field of container kind `origin` whose value is (not) None.
-    value is True / False / None (unknown)."""
-    val = True
+    value is True / False / None (unknown).  and / or / not are evaluated structurally."""
     guards = []
-    for c in _conjuncts(test):
-        v = None
+
+    def ev(c):
+        if isinstance(c, ast.BoolOp):
+            vals = [ev(v) for v in c.values]
+            if isinstance(c.op, ast.And):
+                if any(v is False for v in vals):
+                    return False
+                return None if any(v is None for v in vals) else True
+            if any(v is True for v in vals):
+                return True
+            return None if any(v is None for v in vals) else False
+        if isinstance(c, ast.UnaryOp) and isinstance(c.op, ast.Not):
+            v = ev(c.operand)
+            return None if v is None else (not v)
         if isinstance(c, ast.Compare) and len(c.ops) == 1 and isinstance(c.left, ast.Name) and c.left.id == "origin":
             op, r = c.ops[0], c.comparators[0]
             if isinstance(op, (ast.Is, ast.Eq)) and isinstance(r, ast.Name):
-                v = (r.id == origin)
-            elif isinstance(op, (ast.IsNot, ast.NotEq)) and isinstance(r, ast.Name):
-                v = (r.id != origin)
-            elif isinstance(op, (ast.In, ast.NotIn)) and isinstance(r, (ast.Tuple, ast.List, ast.Set)) and all(isinstance(e, ast.Name) for e in r.elts):
-                v = (origin in [e.id for e in r.elts]) == isinstance(op, ast.In)
-        elif isinstance(c, ast.Call) and norm(c.func) == "isinstance" and len(c.args) == 2 and norm(c.args[0]) == subject:
+                return r.id == origin
+            if isinstance(op, (ast.IsNot, ast.NotEq)) and isinstance(r, ast.Name):
+                return r.id != origin
+            if isinstance(op, (ast.In, ast.NotIn)) and isinstance(r, (ast.Tuple, ast.List, ast.Set)) and all(isinstance(e, ast.Name) for e in r.elts):
+                return (origin in [e.id for e in r.elts]) == isinstance(op, ast.In)
+            if isinstance(op, (ast.Is, ast.IsNot, ast.Eq, ast.NotEq)) and isinstance(r, ast.Constant) and r.value is None:
+                return isinstance(op, (ast.IsNot, ast.NotEq))        # a generic field has an origin
+            return None
+        if isinstance(c, ast.Call) and norm(c.func) == "isinstance" and len(c.args) == 2 and norm(c.args[0]) == subject:
             guards.append(norm(c.args[1]))
-            v = not is_none          # a value of the annotated kind passes its guard (kinds are compared separately); None passes none
-        elif isinstance(c, ast.Compare) and len(c.ops) == 1 and norm(c.left) == subject and isinstance(c.comparators[0], ast.Constant) and c.comparators[0].value is None:
+            return not is_none       # a value of the annotated kind passes its guard (kinds are compared separately); None passes none
+        if isinstance(c, ast.Compare) and len(c.ops) == 1 and norm(c.left) == subject and isinstance(c.comparators[0], ast.Constant) and c.comparators[0].value is None:
             if isinstance(c.ops[0], (ast.Is, ast.Eq)):
-                v = is_none
-            elif isinstance(c.ops[0], (ast.IsNot, ast.NotEq)):
-                v = not is_none
-        if v is None:
-            return None, guards
-        if v is False:
-            val = False
-    return val, guards
+                return is_none
+            if isinstance(c.ops[0], (ast.IsNot, ast.NotEq)):
+                return not is_none
+        return None
+    return ev(test), guards
 
 
 def select(chain, origin, subject, is_none=False):
@@ -149,6 +160,14 @@ class Interp(object):
             g = e.generators[0]
             env2 = dict(env)
             kind = self.bind_loop(g.target, g.iter, env2)
+            if kind == "args" and isinstance(e.elt, ast.IfExp):
+                # [conv(t, rec[i]) if i < len(rec) else None for i, t in enumerate(args)]
+                c = self.cond(e.elt.test, env2)
+                if c is None:
+                    return ("?", t)
+                a_, b_ = self.ev(e.elt.body, env2), self.ev(e.elt.orelse, env2)
+                out = ("poslist", a_, b_) if c else ("poslist", b_, a_)
+                return ("call", "set", out) if isinstance(e, ast.SetComp) else out
             el = self.ev(e.elt, env2)
             if kind == "elem":
                 out = ("listof", el)
